@@ -1345,3 +1345,123 @@ func TestVerifC16Stall(t *testing.T) {
 	mu.Unlock()
 	out.emit(res)
 }
+
+// TestVerifC16StalledNeighbours: two bridged connections are stalled by ordinary back-pressure, one in each direction (a
+// client that stops reading a bulk download, a server that does not read a bulk upload), both of their endpoints alive.
+// Other connections through the same two processes are opened meanwhile: each exchanges a greeting and a reply and is
+// closed by its client; the server must see the reply and end of stream, the client the greeting, within the bound.
+func TestVerifC16StalledNeighbours(t *testing.T) {
+	out := verifOpenOut(t)
+	defer out.close()
+	var mu sync.Mutex
+	order := 0
+	type nres struct {
+		Greeted  bool   `json:"greeting_written"`
+		Got      string `json:"server_received"`
+		EOFAfter int64  `json:"server_eof_after_ms"` // after the greeting was written; -1 = none within the bound
+	}
+	nb := map[string]*nres{}
+	release := make(chan struct{})
+	b := startVerifBridge(t, func(sc *verifSrvConn) {
+		mu.Lock()
+		order++
+		k := order
+		mu.Unlock()
+		switch k {
+		case 1:
+			// bulk download to a client that stops reading
+			buf := make([]byte, 64*1024)
+			for {
+				if _, err := sc.c.Write(buf); err != nil {
+					return
+				}
+			}
+		case 2:
+			// bulk upload that is not read
+			<-release
+			sc.c.Close()
+		default:
+			r := &nres{EOFAfter: -1}
+			start := time.Now()
+			_, err := sc.c.Write([]byte("greeting from the server\n"))
+			r.Greeted = err == nil
+			sc.c.SetReadDeadline(time.Now().Add(5 * time.Second))
+			data, rerr := io.ReadAll(sc.c)
+			r.Got = string(data)
+			if rerr == nil {
+				r.EOFAfter = time.Since(start).Milliseconds()
+			}
+			mu.Lock()
+			nb[strings.TrimSpace(strings.TrimPrefix(r.Got, "reply "))] = r
+			mu.Unlock()
+			sc.c.Close()
+		}
+	})
+	defer b.stop()
+	defer close(release)
+	res := map[string]interface{}{"kind": "stalled-neighbours", "bound_ms": 5000}
+	a1, err1 := net.Dial("tcp", b.frontAddr)
+	if err1 == nil {
+		defer a1.Close()
+		io.ReadFull(a1, make([]byte, 4096)) // the download has started; from here on the client does not read
+	}
+	time.Sleep(300 * time.Millisecond)
+	a2, err2 := net.Dial("tcp", b.frontAddr)
+	if err1 != nil || err2 != nil {
+		res["err"] = fmt.Sprint(err1, err2)
+		out.emit(res)
+		return
+	}
+	defer a2.Close()
+	upDone := make(chan int, 1)
+	go func() {
+		// the upload: blocks once every buffer on the way is full
+		buf := make([]byte, 64*1024)
+		w := 0
+		a2.SetWriteDeadline(time.Now().Add(20 * time.Second))
+		for {
+			n, err := a2.Write(buf)
+			w += n
+			if err != nil {
+				break
+			}
+		}
+		upDone <- w
+	}()
+	time.Sleep(2500 * time.Millisecond) // both stalled connections have filled their buffers by now
+	type cres struct {
+		Name     string `json:"name"`
+		Greeting string `json:"client_received"`
+		Err      string `json:"err,omitempty"`
+	}
+	var clients []cres
+	for k := 0; k < 4; k++ {
+		name := fmt.Sprintf("n%d", k)
+		cr := cres{Name: name}
+		c, err := net.Dial("tcp", b.frontAddr)
+		if err != nil {
+			cr.Err = err.Error()
+			clients = append(clients, cr)
+			continue
+		}
+		c.SetReadDeadline(time.Now().Add(5 * time.Second))
+		line := make([]byte, 25)
+		n, rerr := io.ReadFull(c, line)
+		cr.Greeting = string(line[:n])
+		if rerr != nil {
+			cr.Err = "greeting: " + rerr.Error()
+		}
+		c.Write([]byte("reply " + name))
+		c.Close()
+		clients = append(clients, cr)
+	}
+	time.Sleep(5500 * time.Millisecond)
+	mu.Lock()
+	servers := map[string]*nres{}
+	for k, v := range nb {
+		servers[k] = v
+	}
+	mu.Unlock()
+	res["neighbour_clients"], res["neighbour_servers"] = clients, servers
+	out.emit(res)
+}
